@@ -196,6 +196,12 @@ def run_backup(job):
                 # something happens between the two backups as well
                 writer.add_object(table['k6'] if 'direct:k6' not in steps else table['k3'])
                 packer_handle.pack_all_loose()
+                if index % 3 != 2:
+                    # ... and is cleaned: from now on the object is reachable through the index only, so the new backup
+                    # must carry an index that knows it (the dumps of the two backups usually fall into the same second)
+                    cleaner = Container(folder)      # a handle of its own: a handle left with a pinned snapshot cannot
+                    cleaner.clean_storage()          # write once somebody else has committed (SQLITE_BUSY_SNAPSHOT)
+                    cleaner.close()
                 before = before + (['k6'] if 'direct:k6' not in steps else ['k3'])
                 state['n'] = 0
             state['armed'] = True
@@ -230,13 +236,77 @@ def run_backup(job):
     return line
 
 
+def same_second_incremental(max_attempts=8, wanted=3):
+    """TLC's counterexample of MC_BackupDev_IncQuickCheck on the real code: a previous backup, then an object is added,
+    packed and cleaned, then an incremental backup whose index dump falls into the same second as the previous one (rsync's
+    quick check compares size and whole seconds).  Run alone (before the parallel part) so that the timing is reachable;
+    an attempt counts when the two dumps really fell into the same second."""
+    import time  # pylint: disable=import-outside-toplevel
+    common.import_lib()
+    from disk_objectstore import Container, backup_utils  # pylint: disable=import-outside-toplevel
+
+    table = contents()
+    lines = []
+    hits = 0
+    for attempt in range(max_attempts):
+        if hits >= wanted:
+            break
+        with common.scratch('bks') as work:
+            folder = os.path.join(work, 'c')
+            before = build(folder)
+            dest = os.path.join(work, 'dest')
+            os.makedirs(dest)
+            stamps = []
+            real_dump = backup_utils._sqlite_backup  # pylint: disable=protected-access
+
+            def dump(src, dst, stamps=stamps, real_dump=real_dump):
+                out = real_dump(src, dst)
+                stamps.append(os.stat(dst).st_mtime)
+                return out
+
+            backup_utils._sqlite_backup = dump  # pylint: disable=protected-access
+            failed = ''
+            try:
+                manager = backup_utils.BackupManager(dest)
+                source = Container(folder)
+                other = Container(folder)
+                while time.time() % 1 > 0.03:
+                    pass
+                path_type = type(source.get_folder())
+                backup_utils.backup_container(manager, source, path_type(os.path.join(dest, 'b0')), None)
+                other.add_object(table['k6'])
+                other.pack_all_loose()
+                other.clean_storage()
+                target = os.path.join(dest, 'b1')
+                try:
+                    backup_utils.backup_container(manager, source, path_type(target), path_type(os.path.join(dest, 'b0')))
+                except backup_utils.BackupError as exc:
+                    failed = str(exc)[:200]
+                source.close()
+                other.close()
+            finally:
+                backup_utils._sqlite_backup = real_dump  # pylint: disable=protected-access
+            same = len(stamps) == 2 and int(stamps[0]) == int(stamps[1])
+            hits += same
+            line = {'script': 'same-second-incremental', 'placement': [], 'incremental': True, 'long_open_source': False,
+                    'before': before + ['k6'], 'failed': bool(failed), 'error': failed, 'same_second': bool(same),
+                    'attempt': attempt}
+            if failed:
+                line.update(obs={'loose': [], 'rows': [], 'packs': []}, views=[], listed=[], val='n/a')
+            else:
+                obs, views, listed, val = examine(target, table)
+                line.update(obs=obs, views=views, listed=listed, val=val)
+            lines.append(line)
+    return lines, hits
+
+
 def placements(n_steps):
     idx = range(len(POSITIONS))
     for combo in itertools.combinations_with_replacement(idx, n_steps):
         yield [POSITIONS[i] for i in combo]
 
 
-DESIGN_CONFIGS = [('MC_Backup', True), ('MC_BackupDev_LiveIndex', False), ('MC_BackupDev_IndexFirst', False),
+DESIGN_CONFIGS = [('MC_Backup', True), ('MC_BackupInc', True), ('MC_BackupDev_IncQuickCheck', False), ('MC_BackupDev_LiveIndex', False), ('MC_BackupDev_IndexFirst', False),
                   ('MC_BackupDev_PacksFirst', False)]
 
 
@@ -271,11 +341,11 @@ def conformance(lines, report):
         with open(os.path.join(work, 'MCBackupConf.tla'), 'w', encoding='utf8') as handle:
             names = ', '.join(f'"{k}"' for k in UNIVERSE)
             handle.write('---- MODULE MCBackupConf ----\nEXTENDS BackupConf\n'
-                         f'MCKeys == {{{names}}}\nOrderCode == <<"loose", "dump", "idx", "packs", "rest">>\n====\n')
+                         f'MCKeys == {{{names}}}\nOrderCode == <<"loose", "dump", "idx", "packs", "rest">>\nNoPrev == {{}}\n====\n')
         with open(os.path.join(work, 'MCBackupConf.cfg'), 'w', encoding='utf8') as handle:
             handle.write('SPECIFICATION CSpec\nCONSTANTS\n  Keys <- MCKeys\n  Loose0 <- MCKeys\n  Packed0 <- OrderCode\n'
                          '  AddKeys <- MCKeys\n  DirectKeys <- MCKeys\n  PackRounds = 9\n  CleanRounds = 9\n  Order <- OrderCode\n'
-                         '  RestCopiesLiveIndex = FALSE\nCONSTRAINT Track\nPOSTCONDITION Report\nCHECK_DEADLOCK FALSE\n')
+                         '  RestCopiesLiveIndex = FALSE\n  PrevIdx <- NoPrev\n  Incremental = FALSE\n  IdxByChecksum = TRUE\nCONSTRAINT Track\nPOSTCONDITION Report\nCHECK_DEADLOCK FALSE\n')
         res = tlc.run('MCBackupConf', 'MCBackupConf.cfg', workers=1, timeout=900, cwd=work, env={'TRACE_FILE': trace_file},
                       java_opts=[f'-DTLA-Library={common.SPEC}'])
     reached = {int(t): (int(got), int(total)) for t, got, total in re.findall(r'<<"REACHED", (\d+), (\d+), (\d+)>>', res.output)}
@@ -310,7 +380,8 @@ def check_C15(report: common.Report):
             subset = every if (thorough or not incremental) else rng.sample(every, min(25, len(every)))
             for placement in subset:
                 jobs.append((name, placement, incremental, len(jobs), len(jobs) % 2 == 1))
-    lines = common.pmap(run_backup, jobs)
+    special, same_second = same_second_incremental()
+    lines = common.pmap(run_backup, jobs) + special
     with common.scratch('bkm') as work:
         trace_file = os.path.join(work, 'backup.ndjson')
         with open(trace_file, 'w', encoding='utf8') as handle:
@@ -324,7 +395,7 @@ def check_C15(report: common.Report):
     hits = []
     for chunk in re.split(r'(?=Error: Invariant \w+ is violated)', res.output):
         m = re.match(r'Error: Invariant (\w+) is violated', chunk)
-        ls = re.findall(r'l = (\d+)', chunk)
+        ls = re.findall(r'(?m)^l = (\d+)\s*$', chunk)   # anchored: the final statistics contain "val = 9.2E-15"
         if m and ls:
             hits.append((m.group(1), int(ls[-1])))
     if res.timeout or (res.error_lines and not hits) or res.distinct != len(lines):
@@ -338,6 +409,13 @@ def check_C15(report: common.Report):
             continue
         seen.add(key)
         bad = [v for v in line['views'] if v['cls'] not in ('OK', 'NotExistent') or (v['k'] in line['before'] and v['cls'] != 'OK')]
+        if line['script'] == 'same-second-incremental':
+            report.violation({'invariant': inv, 'script': line['script']}, {'driver': 'backup', 'script': line['script']},
+                             f"{inv}: a backup, then add + pack_all_loose + clean_storage of k6, then an incremental backup whose index "
+                             f"dump falls into the same second as the previous one (same_second={line['same_second']}): the new backup "
+                             f"carries the previous backup's index: bad={bad} val={line['val']} "
+                             f"rows={[r['k'] for r in line['obs']['rows']]} loose={[r['k'] for r in line['obs']['loose']]}")
+            continue
         report.violation({'invariant': inv, 'script': line['script'], 'incremental': line['incremental']},
                          {'driver': 'backup', 'script': line['script'], 'placement': line['placement'], 'incremental': line['incremental'],
                           'long_open_source': line['long_open_source']},
@@ -351,6 +429,7 @@ def check_C15(report: common.Report):
     report.set('distinct_nontrivial', len(lines) - failed)
     report.set('backups_taken', len(lines))
     report.set('backups_that_failed_outside_property', failed)
+    report.set('incremental_backups_with_both_dumps_in_the_same_second', same_second)
     report.set('traces_validated_against_impl', len(lines))
     report.add('states', res.distinct)
     report.add('transitions', res.generated)
@@ -364,6 +443,12 @@ def check_C15(report: common.Report):
 
 def replay(data) -> int:
     rep = data['replay']
+    if rep.get('script') == 'same-second-incremental':
+        lines, hits = same_second_incremental()
+        for line in lines:
+            print({k: v for k, v in line.items() if k not in ('obs', 'listed')})
+        print('attempts with both dumps in the same second:', hits)
+        return 0
     line = run_backup((rep['script'], rep['placement'], rep['incremental'], 0, rep.get('long_open_source', False)))
     print({k: v for k, v in line.items() if k != 'obs'})
     return 0
